@@ -3,6 +3,7 @@ package props
 // C09 — no exported function panics or corrupts memory on untrusted input.
 
 import (
+	"bytes"
 	"errors"
 	"fmt"
 	"math"
@@ -119,6 +120,11 @@ func c09MakeKeys(g *gen.G) *c09Keys {
 	k.sigB, _ = k.bls.Sign([]byte("m"), crypto.NewExpandMsgXOFKMAC128("t"))
 	k.sigE, _ = k.p256.Sign([]byte("m"), hash.NewSHA2_256())
 	return k
+}
+
+func mustSign(sk crypto.PrivateKey, msg []byte, h hash.Hasher) crypto.Signature {
+	s, _ := sk.Sign(msg, h)
+	return s
 }
 
 func (k *c09Keys) anySK(g *gen.G, label string) crypto.PrivateKey {
@@ -586,6 +592,69 @@ func TestC09_Calls(t *testing.T) {
 					g.Fatalf("BLSReconstructThresholdSignature with a hostile spare share returned an undocumented error class: %v", err)
 				}
 				invalid = spareHostile
+			case 30:
+				// well-formed calls of the list-taking functions: what the C layer is handed are flattened buffers and counts
+				// built by the Go wrappers (exact-size allocations); under the address sanitizer a count or an offset that is one
+				// too large reads past an allocation.  The verdicts are known by construction.
+				name = "well-formed list calls"
+				n := g.Int("n", 1, 9)
+				hh := crypto.NewExpandMsgXOFKMAC128("t")
+				msg := g.Bytes("msg", 0, 40)
+				sks := make([]crypto.PrivateKey, n)
+				pks := make([]crypto.PublicKey, n)
+				sigs := make([]crypto.Signature, n)
+				msgs := make([][]byte, n)
+				hs := make([]hash.Hasher, n)
+				sigsMany := make([]crypto.Signature, n)
+				for i := range sks {
+					sks[i], _ = crypto.GeneratePrivateKey(crypto.BLSBLS12381, g.Expand(fmt.Sprintf("seed%d", i), 32))
+					pks[i] = sks[i].PublicKey()
+					sigs[i], _ = sks[i].Sign(msg, hh)
+					msgs[i] = append(append([]byte{}, msg...), byte(i%3)) // some messages repeat
+					hs[i] = hh
+					sigsMany[i], _ = sks[i].Sign(msgs[i], hh)
+				}
+				bad := g.Pick("badIndex", n+1) // n = none
+				if bad < n {
+					sigs[bad] = append([]byte{}, sigs[(bad+1)%n]...)
+					if n == 1 {
+						sigs[bad] = crypto.BLSInvalidSignature()
+					}
+				}
+				g.Journal(fmt.Sprintf("%s (n=%d, bad=%d)", name, n, bad))
+				res, err := crypto.BatchVerifyBLSSignaturesOneMessage(pks, sigs, msg, hh)
+				if err != nil || len(res) != n {
+					g.Fatalf("BatchVerifyBLSSignaturesOneMessage on %d well-formed entries returned (%v, %v)", n, res, err)
+				}
+				for i, r := range res {
+					want := i != bad || (n > 1 && bytes.Equal(sigs[bad], mustSign(sks[i], msg, hh)))
+					if r != want {
+						g.Fatalf("BatchVerifyBLSSignaturesOneMessage: index %d of %d = %v, expected %v", i, n, r, want)
+					}
+				}
+				aggMany, err := crypto.AggregateBLSSignatures(sigsMany)
+				if err != nil {
+					g.Fatalf("AggregateBLSSignatures of %d valid signatures failed: %v", n, err)
+				}
+				if ok, err := crypto.VerifyBLSSignatureManyMessages(pks, aggMany, msgs, hs); !ok || err != nil {
+					g.Fatalf("VerifyBLSSignatureManyMessages on the aggregate of %d valid signatures = (%v, %v)", n, ok, err)
+				}
+				if bad == n {
+					aggOne, _ := crypto.AggregateBLSSignatures(sigs)
+					if ok, err := crypto.VerifyBLSSignatureOneMessage(pks, aggOne, msg, hh); !ok || err != nil {
+						g.Fatalf("VerifyBLSSignatureOneMessage on the aggregate of %d valid signatures = (%v, %v)", n, ok, err)
+					}
+				}
+				aggPk, err := crypto.AggregateBLSPublicKeys(pks)
+				if err != nil {
+					g.Fatalf("AggregateBLSPublicKeys: %v", err)
+				}
+				if rem, err := crypto.RemoveBLSPublicKeys(aggPk, pks[1:]); err != nil || !rem.Equals(pks[0]) {
+					g.Fatalf("RemoveBLSPublicKeys(aggregate of %d keys, all but the first) = %v, not the first key", n, err)
+				}
+				if _, err := crypto.AggregateBLSPrivateKeys(sks); err != nil {
+					g.Fatalf("AggregateBLSPrivateKeys: %v", err)
+				}
 			default:
 				name = "DKG messages"
 				c09DKG(g)
